@@ -441,7 +441,7 @@ func genPrinter(c *ctx, s *schema) {
 	// their text is fingerprinted so that an edit is reported as a broken tie
 	// unless the T-diff of the printer still agrees (the runner decides).
 	helperText := map[string]string{}
-	for _, h := range []string{"write", "printNode", "printList", "printSeparatedList", "printToken", "ifNode", "ifNodeList", "ifNotNodeList", "ifToken", "ifNotToken", "isValidVarName", "NewPrinter", "WithState"} {
+	for _, h := range []string{"write", "writeToken", "printNode", "printList", "printSeparatedList", "printToken", "ifNode", "ifNodeList", "ifNotNodeList", "ifToken", "ifNotToken", "isValidVarName", "NewPrinter", "WithState"} {
 		fd, ok := others[h]
 		if !ok {
 			c.fail(comp, f.Pos(), "printer helper %s not found", h)
